@@ -75,9 +75,28 @@ def import_snapshot():
     return _SNAP["s"]
 
 
+# the same globals named through the extension registry (copyreg.add_extension + EXT1): "ext:" +
+# dotted name; permitted exactly when the name itself is
+EXT_CODES = {"collections.Counter": 0xC1, "collections.deque": 0xC2, "fractions.Fraction": 0xC3, "decimal.Decimal": 0xC4,
+             "verif_sink.sink": 0xC5, "collections.OrderedDict": 0xC6}
+EXT_NAMES = tuple("ext:" + n for n in EXT_CODES)
+
+
+def _plain(dotted):
+    return dotted[4:] if dotted.startswith("ext:") else dotted
+
+
 def restore_all():
+    import copyreg
+
     import fickling.ml as ml
 
+    for dotted, code in EXT_CODES.items():
+        m, n = dotted.rsplit(".", 1)
+        copyreg.add_extension(m, n, code)
+    # (the process-wide cache of resolved extension codes starts empty for every history, like
+    # every other piece of state: a history is a pure function of the code)
+    copyreg._extension_cache.clear()
     reset_pickle_bindings()
     snap = import_snapshot()
     ml.ML_ALLOWLIST.clear()
@@ -86,6 +105,8 @@ def restore_all():
 
 
 def probe_bytes(dotted):
+    if dotted.startswith("ext:"):
+        return b"\x82" + bytes([EXT_CODES[dotted[4:]]]) + b")R."
     if dotted in PY2_SPELLED:
         module, name = PY2_SPELLED[dotted]
         return b"\x80\x03" + f"c{module}\n{name}\n.".encode()
@@ -161,10 +182,12 @@ class Model:
     def expect_hooked(self, dotted):
         if not self.active:
             return "allowed"  # stock pickle
+        dotted = _plain(dotted)
         return "allowed" if in_base(dotted) or dotted in self.current else "blocked"
 
     @staticmethod
     def expect_constructed(adds, dotted):
+        dotted = _plain(dotted)
         return "allowed" if in_base(dotted) or dotted in adds else "blocked"
 
 
@@ -278,7 +301,7 @@ def _machine(res, holder):
     from hypothesis.stateful import RuleBasedStateMachine, rule
 
     adds = st.lists(st.sampled_from(ADDABLE + ADDABLE + ADDABLE_RESOLVE_ONLY), max_size=3, unique=True).map(tuple)
-    names = st.sampled_from(BASE_NAMES + ADDABLE + ADDABLE + NEVER + NEAR_MISS + ADDABLE_RESOLVE_ONLY + tuple(QUALIFIED) + tuple(PY2_SPELLED))
+    names = st.sampled_from(BASE_NAMES + ADDABLE + ADDABLE + NEVER + NEAR_MISS + EXT_NAMES + EXT_NAMES + ADDABLE_RESOLVE_ONLY + tuple(QUALIFIED) + tuple(PY2_SPELLED))
 
     class Env(RuleBasedStateMachine):
         def __init__(self):
